@@ -206,7 +206,7 @@ var c01Tokens = []string{"(", ")", "[", "]", "{", "}", "%", "^", "~", "~@", ":",
 
 var c01Heads = []string{"f", "tf", "m", "mm", "mth", "a", "b", "S", "and", "or", "cond", "let", "letseq", "def", "set", "fn", "defn", "defmac", "for", "range", "break", "continue", "quote", "begin", "newScope", "mdef", "assert", "include", "macexpand", "eval", "return", "struct", "field", "func", "method", "interface", "package", "import", "var", "expectError", "comment", "%", "^", "~", "~@", ":", "=", ":=", "+", "-", "*", "/", "<", "==", "!=", "not", "aget", "aset", "hget", "hset", "hdel", "first", "rest", "cons", "append", "concat", "len", "str", "json", "unjson", "msgpack", "unmsgpack", "togo", "apply", "map", "sprintf", "symnum", "str2sym", "sym2str", "gensym", "read", "slice", "flatten", "arrayidx", "hashidx", "hpair", "keys", "infixExpand", "infix", "defined?", "type?", "list", "array", "hash", "raw", "makeArray", "string", "int", "float", "char", "_method", "deref", "&", "derefSet", "dot", ".", "chomp", "trim", "split", "nsplit", "exp", "sll", "sra", "bitNot", "bitAnd", "mod", "**", "++", "--", "+=", "pretty", "callcc", "generator", "sort", "reverse", "label:"}
 
-var c01Atoms = []string{"1", "-1", "0", "9223372036854775807", "-9223372036854775808", "1.5", "1e308", "-0.0", `"s"`, `""`, "#c", "nil", "true", "a", "b", "a:", ".a", "a.b", "a.b.c", "$a", "#a", "[]", "[1 2]", "()", "(quote x)", "{}", "{a = 1}", "(hash a: 1)", "(hash)", "(list 1 2)", "(fn [x] x)", "(fn [] (break))", "(raw \"ab\")", "[a b]", "[1 [2 [3]]]", "(list)", "%x", "^(a ~b)", "~x", "~@x", "lp:", "& rest", "[& r]", "[a & ]", "[#x]", "(def a 1)", "(and)", "(let)", "(cond)", "(for)", "(fn)", "x y", "\"\\x00\"", "(str2sym \"\")", "(str2sym \"a b\")", "(gensym)", "(read \"\")", "(read \" \")", "(read \"(\")", "(macexpand nil)", "(eval nil)", "(apply f nil)"}
+var c01Atoms = []string{"1", "-1", "0", "9223372036854775807", "-9223372036854775808", "1.5", "1e308", "-0.0", `"s"`, `""`, "#c", "nil", "true", "a", "b", "a:", ".a", "a.b", "a.b.c", "$a", "#a", "[]", "[1 2]", "()", "(quote x)", "{}", "{a = 1}", "(hash a: 1)", "(hash)", "(list 1 2)", "(fn [x] x)", "(fn [] (break))", "(raw \"ab\")", "[a b]", "[1 [2 [3]]]", "(list)", "%x", "^(a ~b)", "~x", "~@x", "lp:", "& rest", "[& r]", "[a & ]", "[#x]", "(def a 1)", "(and)", "(let)", "(cond)", "(for)", "(fn)", "x y", "\"\\x00\"", "(str2sym \"\")", "(str2sym \"a b\")", "(gensym)", "(read \"\")", "(read \" \")", "(read \"(\")", ".a", ".a.b", "(field .a 1)", "(hash .a 1)", "(macexpand nil)", "(eval nil)", "(apply f nil)"}
 
 func genHostile(t *rapid.T, depth int) string {
 	k := rapid.IntRange(0, 9).Draw(t, "hk")
